@@ -6,6 +6,8 @@ import (
 	"fmt"
 	"time"
 
+	"github.com/enbility/ship-go/model"
+
 	"verif/simnet"
 	"verif/simrt"
 )
@@ -30,7 +32,14 @@ func c01Hub(x *Ctx) {
 		// ... or while A's own dial to the visible B is in flight / its handshake runs
 		withdrawModes = append(withdrawModes, "cancel-during-dial", "unregister-during-dial")
 	}
-	storedThenWithdrawn := PickB(x, "stored-then-withdrawn", 0.5, withdrawModes)
+	p0 := 0.5
+	if x.Feat(FeatMoreInputs) {
+		// the withdrawals that race with a connection are where the trust decision and the
+		// user's operation meet: more of them
+		withdrawModes = append(withdrawModes, "cancel-during-dial", "unregister-during-dial")
+		p0 = 0.35
+	}
+	storedThenWithdrawn := PickB(x, "stored-then-withdrawn", p0, withdrawModes)
 	duringDial := storedThenWithdrawn == "cancel-during-dial" || storedThenWithdrawn == "unregister-during-dial"
 	withdrawGap := time.Duration(0)
 	if duringDial {
@@ -89,6 +98,11 @@ func c01Hub(x *Ctx) {
 		a.hub.Start()
 		if duringDial && withdrawGap > 0 {
 			simrt.Sleep(withdrawGap)
+		} else if duringDial && x.Feat(FeatMoreInputs) {
+			// no gap: as soon as A's own dial to B is on its way (at most 5 s)
+			for i := 0; i < 5000 && !dialSeen(x, "A", "B"); i++ {
+				simrt.Sleep(time.Millisecond)
+			}
 		}
 		switch storedThenWithdrawn {
 		case "cancel", "cancel-during-dial":
@@ -149,6 +163,16 @@ func c01Hub(x *Ctx) {
 		if a.hub.ServiceForSKI(b.ski).Trusted() {
 			x.Violate("trusted-without-user", "", "hub A marks B as trusted although the user never registered it and auto-accept is off")
 			return
+		}
+		if x.Feat(FeatMoreInputs) {
+			// 100 s after the last operation: whatever connection A has with B (B keeps
+			// dialling) must not be a completed one
+			if c := a.hub.VerifConnections()[b.ski]; c != nil {
+				if st, _ := c.ShipHandshakeState(); st == model.SmeStateComplete {
+					x.Violate("completed-connection-without-trust", "", fmt.Sprintf("100 s after the user's last operation hub A has a completed connection with B, which it does not trust (withdrawn by: %q)", storedThenWithdrawn))
+					return
+				}
+			}
 		}
 		x.S.Stop("done")
 	})
@@ -222,4 +246,14 @@ func c01Hub(x *Ctx) {
 			x.Probe("reached-pending-listen")
 		}
 	})
+}
+
+// dialSeen: has hub `from` started a dial to `to`?
+func dialSeen(x *Ctx, from, to string) bool {
+	for _, e := range x.Events() {
+		if e.Kind == "dial" && e.A == from && e.B == to {
+			return true
+		}
+	}
+	return false
 }
